@@ -48,3 +48,11 @@ def sym_tangent(E, name):
     if E.I.truth(b, tag=name):
         return NoChange(E)
     return UnknownChange(E)
+
+
+def nochange_sound(E, rd, new_ret, old_ret):
+    """C08: a retdiff tagged NoChange everywhere carries the previous return value (trees without leaves excepted)"""
+    T = E.I.T
+    p = E.I.to_u(E.call(INC + ":Diff.tree_primal", rd))
+    noleaves = E.ctx.fn("has_no_leaves", U, E.z3.BoolSort())(p)
+    return E.Implies(E.And(T.all_nochange(rd), E.Not(noleaves)), E.eq(new_ret, old_ret))
